@@ -6,6 +6,7 @@ import Percival.Proofs.UpStep
 import Percival.Proofs.AfMonSound
 import Percival.Proofs.UpMonSound
 import Percival.Proofs.UpMonSoundG
+import Percival.Proofs.AfAns
 /-!
 # C14 — allocation failure is reported, leaves objects unchanged and leaks nothing (proof-level part)
 
@@ -742,5 +743,127 @@ example :
       ((List.range 30).map fun i => UpStep.Op.hqStart i [.success] 0)
     (((UpStep.runOps {} ops).zip ops).all fun p =>
       (Spec.UpMon.monStep () (UpStep.kindOf p.2) p.1.2.ans).2 == none) = false := by decide +kernel
+
+/-! ## The monitors read the printed answer (`pmodel afmon` / `pmodel upmon` on the text `pmodel af` / `pmodel upmodel` print)
+
+The soundness theorems above feed `Out.ans` to `monStep`.  `Driver/Af.render o` / `Driver/Upmodel.render o` is **by
+definition** the tokens `l1Toks o` joined by single spaces, then ` | ` and the L2 part; the theorems below say that
+`Driver/Afmon.parseAns` / `Driver/Upmon.parseAns` read from exactly these tokens the typed answer `o.ans` — printing and
+reading of numbers (`Nat.repr`, `Int.repr`, `String.toNat?`; a negative `live=` is unreadable), the `key=value` reading
+(`kvOf`), `id=none`, the `,`-separated ids of `ran=` and `-` included — for **every** typed output (no side condition),
+that no token contains a space (cutting the L1 text at the spaces with `String.split` gives the tokens back), and that
+`pmodel upmon` reduces an operation line to the `Kind` of the operation `pmodel upmodel` reads from it (`pmodel afmon`
+reads the operation line with `pmodel af`'s own `parseOp`).  Not covered: that `Driver/Loop.loopMon` cuts the line with
+`String.trimAscii` / `String.splitOn " "` (a different splitting function) and that `tools/vlib.py` cuts at ` | ` —
+`KAT/AfAns.lean` evaluates these on an output of every shape and on the outputs of a run (`*_loop_line_partial` below
+has the loop's cut as its hypothesis). -/
+
+open Percival.Proofs.AfAns in
+/-- **`pmodel afmon` reads `Out.ans`** from the L1 tokens `pmodel af` prints, for every typed output. -/
+theorem af_monitor_reads_printed_answer (o : AfStep.Out) :
+    Driver.Afmon.parseAns (Driver.Af.l1Toks o) = o.ans ∧
+    Driver.Dsmon.splitCh ' ' (" ".intercalate (Driver.Af.l1Toks o)) = Driver.Af.l1Toks o ∧
+    Driver.Af.render o =
+      " ".intercalate (Driver.Af.l1Toks o) ++ (match Driver.Af.l2Str o with | some s => " | " ++ s | none => "") :=
+  ⟨af_parseAns_l1Toks o, af_split_l1 o, rfl⟩
+
+/-- the tokens of real lines: `fail rf=1 id=none | …`, `ok rf=0 ran=7,8 | …`, `exists rf=0 | …`, `end live=0 leaked=0 | n=17` -/
+example : Driver.Af.l1Toks (.heap false 1 (some none) { a := [3], hal := 32, c := { live := 3, req := [24] } }) =
+      ["fail", "rf=1", "id=none"] ∧
+    Driver.Af.l1Toks (.ev .ok 0 (some [7, 8]) ⟨[], 32, none, none, (0, 4096), (0, 4096), ⟨3, []⟩⟩) = ["ok", "rf=0", "ran=7,8"] ∧
+    Driver.Af.l1Toks (.ev .exists_ 0 none ⟨[], 32, none, none, (0, 4096), (0, 4096), ⟨3, []⟩⟩) = ["exists", "rf=0"] ∧
+    Driver.Af.l1Toks (.end_ 0 17) = ["end", "live=0", "leaked=0"] := by decide +kernel
+
+open Percival.Proofs.AfAns in
+/-- **`pmodel upmon` reads `Out.ans`** from the L1 tokens `pmodel upmodel` prints, for every typed output, and the
+`Kind` of the operation from the operation line. -/
+theorem up_monitor_reads_printed_answer (o : UpStep.Out) :
+    Driver.Upmon.parseAns (Driver.Upmodel.l1Toks o) = o.ans ∧
+    Driver.Dsmon.splitCh ' ' (" ".intercalate (Driver.Upmodel.l1Toks o)) = Driver.Upmodel.l1Toks o ∧
+    Driver.Upmodel.render o =
+      " ".intercalate (Driver.Upmodel.l1Toks o) ++ (match Driver.Upmodel.l2Str o with | some s => " | " ++ s | none => "") ∧
+    (∀ toks op, Driver.Upmodel.parseOp toks = some op → Driver.Upmon.parseKind toks = UpStep.kindOf op) :=
+  ⟨up_parseAns_l1Toks o, up_split_l1 o, rfl, up_parseKind⟩
+
+example : Driver.Upmodel.l1Toks (.line false 1 { c := { live := 3, req := [56] }, socks := [], imm := 0, tm := 0, pools := [] }) =
+      ["fail", "rf=1"] ∧
+    Driver.Upmodel.l1Toks (.end_ (-1) 17 (some (2, 1))) = ["end", "live=-1", "leaked=0"] ∧
+    Driver.Upmodel.l1Toks (.word .modelContract) = ["model-contract"] := by decide +kernel
+
+open Percival.Proofs.AfAns in
+/-- **Every case of component `events`, at the level of the text the two executables exchange.**  For every list of
+operation lines (token lists) that `pmodel af` can read — `ops` being what it reads — and that is within `OpsOk`:
+the lines `pmodel af` prints (`afPrinted`: `Driver/Af.step` along the case) are `render` of the outputs of `runOps`, and
+**`Driver/Afmon.step` — the whole function the monitor executable applies to (operation line, answer line) — run along
+the case on the L1 tokens the model prints, answers `ok` on every line** (`afVerdicts`). -/
+theorem af_monitor_accepts_printed_run (lines : List (List String)) (ops : List Spec.AfMon.Op)
+    (hp : lines.mapM Driver.Af.parseOp = some ops) (hok : Proofs.AfMonSound.OpsOk ops) :
+    afPrinted {} lines = (AfStep.runOps {} ops).map (fun r => Driver.Af.render r.2) ∧
+    afVerdicts {} (lines.zip ((AfStep.runOps {} ops).map fun r => Driver.Af.l1Toks r.2)) =
+      List.replicate lines.length "ok" :=
+  ⟨af_printed_eq lines ops {} hp, af_verdicts_ok lines ops {} {} hp (monitor_accepts_model ops hok)⟩
+
+/-- operation lines that are read as (a part of) the demonstration case of `monitor_accepts_model` -/
+example : [["failat", toString (5 : Nat)], ["h_init"], ["h_add", toString (5 : Nat), toString (7 : Int)], ["h_min"],
+      ["reg_net", toString (2 : Nat), toString (4 : Nat), toString (0 : Nat)], ["run"], ["end"]].mapM Driver.Af.parseOp =
+    some [.failat 5, .hInit, .hAdd 5 7, .hMin, .regNet 2 4 false, .run, .end_] := by
+  simp only [List.mapM_cons, List.mapM_nil, Driver.Af.parseOp, Proofs.DsAns.nat_rt, Proofs.DsAns.int_rt]
+  rfl
+/-- the monitor does reject what it reads from printed tokens: `fail rf=0` as the answer to `h_init` -/
+example : Driver.Af.l1Toks (.heap false 0 none ⟨[], 0, ⟨0, []⟩⟩) = ["fail", "rf=0"] ∧
+    (Spec.AfMon.monStep {} .hInit (Driver.Afmon.parseAns (Driver.Af.l1Toks (.heap false 0 none ⟨[], 0, ⟨0, []⟩⟩)))).2 ≠ none := by
+  rw [Proofs.AfAns.af_parseAns_l1Toks]
+  decide +kernel
+
+open Percival.Proofs.AfAns Percival.Proofs.UpMonSound in
+/-- **Every case of component `upstart`, at the level of the text**: for every list of operation lines that
+`pmodel upmodel` can read as `ops`, within `OpsOk` (at most 61 connect lines between two `end`s), the lines it prints
+are `render` of the outputs of `runOps`, and `Driver/Upmon.step` run along the case on the L1 tokens the model prints
+answers `ok` on every line. -/
+theorem up_monitor_accepts_printed_run (lines : List (List String)) (ops : List UpStep.Op)
+    (hp : lines.mapM Driver.Upmodel.parseOp = some ops) (hok : OpsOk ops) :
+    upPrinted {} lines = (UpStep.runOps {} ops).map (fun r => Driver.Upmodel.render r.2) ∧
+    upVerdicts () (lines.zip ((UpStep.runOps {} ops).map fun r => Driver.Upmodel.l1Toks r.2)) =
+      List.replicate lines.length "ok" :=
+  ⟨up_printed_eq lines ops {} hp, up_verdicts_ok lines ops {} hp (up_monitor_accepts_model ops hok)⟩
+
+example : [["failat", toString (3 : Nat)], ["nr_start", toString (0 : Nat), toString (0 : Nat)],
+      ["nc_start", toString (1 : Nat), "-", "-"], ["hq_start", toString (0 : Nat), "-", toString (17 : Nat)],
+      ["end"]].mapM Driver.Upmodel.parseOp =
+    some [.failat 3, .start .read 0 0, .ncStart 1 [] none, .hqStart 0 [] 17, .end_] := by
+  simp only [List.mapM_cons, List.mapM_nil, Driver.Upmodel.parseOp, Driver.Upmodel.parsePattern, Proofs.DsAns.nat_rt,
+    if_true]
+  rfl
+/-- the monitor does reject what it reads from printed tokens: `fail rf=0` as the answer to a call; a `BAD=` word -/
+example : Driver.Upmodel.l1Toks (.line false 0 ⟨⟨0, []⟩, [], 0, 0, []⟩) = ["fail", "rf=0"] ∧
+    (Spec.UpMon.monStep () .call (Driver.Upmon.parseAns (Driver.Upmodel.l1Toks (.line false 0 ⟨⟨0, []⟩, [], 0, 0, []⟩)))).2 ≠ none ∧
+    (Driver.Upmon.parseAns ["ok", "BAD=bytes"]).bad = some "BAD=bytes" := by
+  rw [Proofs.AfAns.up_parseAns_l1Toks]
+  decide +kernel
+
+/- Full statements (NOT proved): for every output `o`, the tokens `Driver.loopMon` cuts out of the line
+`"> " ++ <L1 part of render o> ++ "\n"` are `">" :: ans` with `parseAns ans = o.ans`:
+    theorem af_monitor_reads_loop_line (o : AfStep.Out) :
+      ∃ ans, loopToks (afMonLine o) = ">" :: ans ∧ Driver.Afmon.parseAns ans = o.ans
+    theorem up_monitor_reads_loop_line (o : UpStep.Out) :
+      ∃ ans, loopToks (upMonLine o) = ">" :: ans ∧ Driver.Upmon.parseAns ans = o.ans
+   Missing: that the loop's cut of that line — `String.trimAscii`, the legacy `String.splitOn " "` (works on raw byte
+   positions, no lemmas in core), dropping the empty tokens — is `">"` followed by the pieces of the L1 text between
+   its spaces (`afLoopCutOk o` / `upLoopCutOk o`, the hypothesis `hcut` below; `KAT/AfAns.lean` evaluates it at every
+   build on an output of every shape and on the outputs of a run).  Everything after that cut is proved. -/
+open Percival.Proofs.AfAns in
+theorem af_monitor_reads_loop_line_partial (o : AfStep.Out) (hcut : afLoopCutOk o = true) :
+    ∃ ans, loopToks (afMonLine o) = ">" :: ans ∧ Driver.Afmon.parseAns ans = o.ans :=
+  af_reads_loop_line o hcut
+
+open Percival.Proofs.AfAns in
+theorem up_monitor_reads_loop_line_partial (o : UpStep.Out) (hcut : upLoopCutOk o = true) :
+    ∃ ans, loopToks (upMonLine o) = ">" :: ans ∧ Driver.Upmon.parseAns ans = o.ans :=
+  up_reads_loop_line o hcut
+
+open Percival.Proofs.AfAns in
+/-- the lines in question for real outputs -/
+example : afMonLine (.heap true 0 (some (some 5)) { a := [5], hal := 32, c := { live := 2, req := [] } }) = "> ok rf=0 id=5\n" ∧
+    upMonLine (.end_ 0 17 none) = "> end live=0 leaked=0\n" := by decide +kernel
 
 end Percival.C14
